@@ -246,9 +246,10 @@ func (r *relay) processFrame(f http2.Frame) error {
 		err = r.processor(f.StreamID).RSTStream(f.ErrCode)
 	case *http2.SettingsFrame:
 		if f.IsAck() {
-			r.destMu.Lock()
-			err = r.dest.WriteSettingsAck()
-			r.destMu.Unlock()
+			// The acknowledgement goes through the output queue: DATA frames that were released
+			// under the window in force before the acknowledged SETTINGS must reach the peer before
+			// the acknowledgement, the peer enforces a reduced window from then on.
+			r.output <- queuedSettingsAckFrame{}
 		} else {
 			var settings []http2.Setting
 			if err = f.ForeachSetting(func(s http2.Setting) error {
